@@ -1,13 +1,15 @@
 """The boolean conditions of act_heart_beat and the step sequences of the restart handlers (src/model.rs), translated to a
 small expression type.  Props/C01 / C14 prove (by cases over the atoms) that each is the condition the Session model uses, so a
 change of a condition in the source changes the generated definition and a theorem stops checking."""
-import os, re
+import os, re, sys
+sys.path.insert(0, os.path.dirname(os.path.abspath(__file__)))
+import _rustcond as rc
+from _rustcond import parse, body_of, strip_verif, block_end, if_statements, cond_guarding, bound_name, one
 NAME = "HeartBeat"
 PROPS = ["C01", "C14"]
 
 # Rust atoms -> Lean atoms
-ATOMS = {
-    "reader_stopped": "rs", "items_consumed": "ic", "matcher_stopped": "ms", "processed": "processed",
+BASE_ATOMS = {
     "self.matcher_control.is_none()": "mcNone", "self.matcher_control.is_some()": "mcSome",
     "self.no_clear_if_empty": "nce", "matched.is_empty()": "resultEmpty",
     "self.select1": "select1", "self.exit0": "exit0", "self.sync": "sync",
@@ -15,120 +17,35 @@ ATOMS = {
 }
 
 
-def tokenize(s):
-    toks, i = [], 0
-    s = s.strip()
-    while i < len(s):
-        c = s[i]
-        if c.isspace():
-            i += 1
-        elif s.startswith("&&", i) or s.startswith("||", i):
-            toks.append(s[i:i + 2]); i += 2
-        elif c in "()!":
-            # `!` of `!=` never occurs in these conditions; `(` may open a call `foo()` — those are inside atoms
-            toks.append(c); i += 1
-        else:
-            # an atom: the longest known atom text starting here
-            best = None
-            for a in ATOMS:
-                if s.startswith(a, i) and (best is None or len(a) > len(best)):
-                    best = a
-            if best is None:
-                raise Exception("heartbeat: unknown atom at %r" % s[i:i + 40])
-            toks.append(("atom", ATOMS[best])); i += len(best)
-    return toks
-
-
-def parse(s):
-    toks = tokenize(s)
-    pos = [0]
-
-    def peek():
-        return toks[pos[0]] if pos[0] < len(toks) else None
-
-    def eat(t):
-        if peek() != t:
-            raise Exception("heartbeat: expected %r in %r" % (t, s))
-        pos[0] += 1
-
-    def p_or():
-        e = p_and()
-        while peek() == "||":
-            pos[0] += 1
-            e = "(.or %s %s)" % (e, p_and())
-        return e
-
-    def p_and():
-        e = p_not()
-        while peek() == "&&":
-            pos[0] += 1
-            e = "(.and %s %s)" % (e, p_not())
-        return e
-
-    def p_not():
-        t = peek()
-        if t == "!":
-            pos[0] += 1
-            return "(.not %s)" % p_not()
-        if t == "(":
-            pos[0] += 1
-            e = p_or()
-            eat(")")
-            return e
-        if isinstance(t, tuple):
-            pos[0] += 1
-            return "(.atom .%s)" % t[1]
-        raise Exception("heartbeat: unexpected %r in %r" % (t, s))
-
-    e = p_or()
-    if pos[0] != len(toks):
-        raise Exception("heartbeat: trailing tokens in %r" % s)
-    return e
-
-
-def body_of(src, sig):
-    i = src.index(sig)
-    j = src.index("{", i)
-    depth, k = 0, j
-    while True:
-        if src[k] == "{":
-            depth += 1
-        elif src[k] == "}":
-            depth -= 1
-            if depth == 0:
-                return src[j:k + 1]
-        k += 1
-
-
-def strip_verif(body):
-    # drop the add-only hook lines (attribute line + the statement that follows it) and the comments
-    body = re.sub(r"#\[cfg\(feature = \"verif\"\)\]\s*\n[^\n]*\n", "", body)
-    return re.sub(r"//[^\n]*", "", body)
-
-
-def one(pattern, text, what):
-    ms = re.findall(pattern, text, re.S)
-    if len(ms) != 1:
-        raise Exception("heartbeat: expected exactly one %s, found %d" % (what, len(ms)))
-    return ms[0]
-
-
 def extract(repo):
     src = open(os.path.join(repo, "src", "model.rs")).read()
     hb = strip_verif(body_of(src, "fn act_heart_beat(&mut self"))
     defs = []
-    # act_heart_beat
-    defs.append(("hbProcessed", one(r"let processed = ([^;]+);", hb, "`let processed =` in act_heart_beat")))
-    defs.append(("hbClearIfNotNull", one(r"ClearStrategy::ClearIfNotNull => \{\s*if ([^{]+)\{", hb, "ClearIfNotNull condition")))
-    defs.append(("hbRestart", one(r"if ([^{]+)\{\s*self\.restart_matcher\(\);", hb, "restart condition")))
-    defs.append(("hbArm", one(r"if ([^{]+)\{\s*let tx = self\.tx\.clone\(\);\s*let hb_timer_guard", hb, "timer condition")))
+    # the locals, whatever they are called: identified by what they are bound to
+    rs = bound_name(hb, r"is_done", "the reader's is_done()")
+    ms = bound_name(hb, r"\.stopped\(\)", "the matcher's stopped()")
+    ic = bound_name(hb, r"num_not_taken\(\)\s*==\s*0", "num_not_taken() == 0")
+    pr = bound_name(hb, r"\b%s\b\s*&&\s*\b%s\b|\b%s\b\s*&&\s*\b%s\b" % (rs, ic, ic, rs), "`<is_done> && <consumed>`")
+    rc.ATOMS = dict(BASE_ATOMS)
+    rc.ATOMS.update({rs: "rs", ic: "ic", ms: "ms", pr: "processed"})
+    defs.append(("hbProcessed", one(r"let\s+%s\s*=\s*([^;]+);" % pr, hb, "the binding of `processed` in act_heart_beat")))
+    m = re.search(r"ClearStrategy::ClearIfNotNull\s*=>\s*\{", hb)
+    if not m:
+        raise Exception("heartbeat: no ClearIfNotNull arm in act_heart_beat")
+    arm = hb[m.end() - 1:block_end(hb, m.end() - 1)]
+    defs.append(("hbClearIfNotNull", cond_guarding(arm, "self.selection.clear()", "the clear of the ClearIfNotNull arm")))
+    defs.append(("hbRestart", cond_guarding(hb, "self.restart_matcher()", "restart_matcher()")))
+    defs.append(("hbArm", cond_guarding(hb, "schedule_with_delay", "the timer")))
     # the order of the reads and of the three actions (harvest, restart, arm) in act_heart_beat
-    order = [hb.index(x) for x in ("let reader_stopped", "let matcher_stopped", "if matcher_stopped {", "let items_consumed",
-                                   "let processed", "self.restart_matcher()", "schedule_with_delay")]
+    order = [hb.index(x) for x in ("let %s" % rs, "let %s" % ms, "into_items()", "let %s" % ic,
+                                   "let %s" % pr, "self.restart_matcher()", "schedule_with_delay")]
     if order != sorted(order):
         raise Exception("heartbeat: act_heart_beat no longer reads is_done, stopped, (harvest), num_not_taken and then restarts / arms in that order")
     if hb.count("is_done") != 1:
         raise Exception("heartbeat: act_heart_beat reads is_done %d times" % hb.count("is_done"))
+    # the harvest happens only under the `stopped` reading
+    if cond_guarding(hb, "into_items()", "the harvest").strip() != ms:
+        raise Exception("heartbeat: the harvest is no longer guarded by the `stopped` reading alone")
     # the order of the steps of the three handlers that restart the matching (on_query_change, act_rotate_mode, on_cmd_query_change)
     STEPS = [("killReader", r"self\.reader_control\.take\(\)\s*\{\s*ctrl\.kill\(\);"),
              ("killMatcher", r"self\.matcher_control\.take\(\)\s*\{\s*ctrl\.kill\(\);"),
